@@ -34,4 +34,19 @@ Next == \/ \E c \in Alphabet : ApiAppend(c)
         \/ IChunkAppend \/ IPreEnd \/ IPreTune \/ IFinish \/ IReturn
         \/ IEndWarmup \/ IKStart \/ ITransition \/ IKEnd \/ ITune
 LenBound == Len(cfgs) <= MaxLen
+
+\* --- liveness: a sampling call always returns, and sample_all_epochs consumes every epoch ----
+\* (appends are bounded by an enabling condition, not by a state constraint, so that TLC's
+\* liveness check is sound)
+NextL == \/ (Len(cfgs) < MaxLen /\ \E c \in Alphabet : ApiAppend(c))
+         \/ ApiSampleNext \/ ApiSampleAll
+         \/ IStartEpoch \/ IInitialValues \/ IPreStart \/ IChunkBegin \/ IIterEnd
+         \/ IChunkAppend \/ IPreEnd \/ IPreTune \/ IFinish \/ IReturn
+         \/ IEndWarmup \/ IKStart \/ ITransition \/ IKEnd \/ ITune
+InternalL == IStartEpoch \/ IInitialValues \/ IPreStart \/ IChunkBegin \/ IIterEnd
+             \/ IChunkAppend \/ IPreEnd \/ IPreTune \/ IFinish \/ IReturn
+             \/ IEndWarmup \/ IKStart \/ ITransition \/ IKEnd \/ ITune
+SpecL == Init /\ [][NextL]_vars /\ WF_vars(InternalL)
+SamplingCallReturns == (mode # "none") ~> (mode = "none")
+SampleAllConsumesEverything == (mode = "all") ~> (mode = "none" /\ ~HasMore)
 =============================================================================
